@@ -229,10 +229,6 @@ prop("C12", level="proof", bounded=[],
                  "element concerned, *_all hooks abort); before/after step hooks bracket the step; no hook in dry-run or for "
                  "de-selected scenarios; strict nesting of the whole hook log is bounded",
      notes=_RUN_NOTES)
-prop("C13", level="proof", bounded=[],
-     explanation="scope balance of every run method (push/pop paired on every exit, raising cleanup fails the element and the run) "
-                 "proved over the abstract Context; the layered-attribute view and LIFO cleanups are bounded (model-based histories)",
-     notes=_RUN_NOTES)
 prop("C15", level="other", bounded=[],
      explanation="event emission proved: Step.run emits exactly one match and one result unless quiet; Scenario.run announces every "
                  "step once in order; every emission site is a loop over all formatters (structural check). JSON/plain/progress "
